@@ -141,7 +141,7 @@ def gen_values(cfg, seed):
         a = rng.integers(-3, 4, (N, N)).astype(complex)
         if not real_only:
             a = a + 1j * rng.integers(-3, 4, (N, N))
-        if cfg["hermitian"]:
+        if cfg.get("herm_values", cfg["hermitian"]):
             a = np.triu(a, 1) + np.triu(a, 1).conj().T + np.diag(np.diag(a).real)
         for i in range(N):
             for j in range(N):
